@@ -93,6 +93,11 @@ def run_case(ctx, dsc):
     N, C, H, W, p, r = dsc["N"], dsc["C"], dsc["H"], dsc["W"], dsc["p"], dsc["r"]
     cout, K, cid, bs, bs2, nd = dsc["cout"], dsc["K"], dsc["class_id"], dsc["bs"], dsc["bs2"], dsc["nb_design"]
     spatial = dsc["spatial"]
+    if dsc.get("silent"):
+        stride0 = (p * 4) // 5
+        if not (stride0 >= 1 and ((H - p) // stride0 >= 1 or (W - p) // stride0 >= 1)):
+            ctx.count("silent_crop_cases", "image-too-small")
+            dsc = dict(dsc, silent=False)      # no band fits next to a non-black crop: an ordinary case
     ext, Head = build_models(dsc)
     # block mosaics (3x3 blocks of random intensity per channel): spatially varied activations, so that
     # the concept bank is not (numerically) rank one
@@ -107,8 +112,7 @@ def run_case(ctx, dsc):
         elif stride >= 1 and (W - p) // stride >= 1:
             imgs_np[:, :, :, :p] = 0.0
             ctx.count("silent_crop_cases", "cols")
-        else:
-            ctx.count("silent_crop_cases", "image-too-small")
+
     imgs = torch.tensor(imgs_np)
     w0 = rng.integers(-8, 9, size=(K, cout)) / 4.0
     b0 = rng.integers(-4, 5, size=K) / 4.0
@@ -210,6 +214,14 @@ def run_case(ctx, dsc):
     wh = wh.astype(np.float32)
     head = Head(wh, b0, q0).eval()
     cr.latent_to_logit_model = head
+
+    if dsc.get("silent"):
+        # the silent-crop cases are about fit / transform (one row per crop, factors, coefficients); their bias-free,
+        # offset-free activations are mostly zero, so the class logit barely varies under concept masking and the importance
+        # estimate is float32 noise (found on the unchanged tree in the thorough tier) - importances are judged on the
+        # other cases only
+        ctx.case(dsc, True)
+        return
 
     def importance():
         return cr.estimate_importance(inputs=x_in if local else None, nb_design=nd)
